@@ -44,6 +44,9 @@ type valRangeInt struct {
 	name string
 	low  int32
 	high int32
+
+	// additional values (1setOf rangeOfInteger), in order
+	more [][2]int32
 }
 
 func (v *valInt) Tag() byte {
@@ -182,6 +185,15 @@ func (v *valRangeInt) encode(buf decoder.EncoderType) {
 
 	buf.WriteUint32(v.low)
 	buf.WriteUint32(v.high)
+
+	for _, r := range v.more {
+		buf.WriteUint8(v.tag)
+		buf.WriteUint16(0) //additional value: empty name
+		buf.WriteUint16(8)
+
+		buf.WriteUint32(r[0])
+		buf.WriteUint32(r[1])
+	}
 }
 
 func (v *valRangeInt) decode(dec decoder.Decoder) error {
@@ -191,11 +203,13 @@ func (v *valRangeInt) decode(dec decoder.Decoder) error {
 	v.low = dec.Int32()
 	v.high = dec.Int32()
 
-	// additional values (1setOf): same tag, empty name; only the first range is kept
+	// additional values (1setOf): same tag, empty name
 	vtag := dec.Byte()
 	for vtag == v.tag {
 		if l := dec.Int16(); l == 0 {
-			_ = dec.Data()
+			_ = dec.Int16() //Read away, len is always 8
+
+			v.more = append(v.more, [2]int32{dec.Int32(), dec.Int32()})
 			vtag = dec.Byte()
 		} else {
 			dec.Seek(-2) //Rewind name length
